@@ -1,9 +1,11 @@
 """C12 - repeat is a periodic extension with the original spacing."""
+import math
+
 import numpy as np
 from hypothesis import strategies as st
 
 from twv.runner import Sub, Violation
-from twv.gens import series, ys, is_uniform
+from twv.gens import fl, series, ys, is_uniform
 
 import traffic_weaver.process as process
 from traffic_weaver import Weaver
@@ -15,32 +17,49 @@ RULE = ("Hypothesis builds a series of 2..60 samples (uniform: integer / hour / 
         "about a third of the series in a narrow dtype - int8/int16/int32/uint8/uint16 abscissae ending just below "
         "the dtype's maximum or spanning its whole range, float32/float16 abscissae on the ulp lattice just below a "
         "power of two or below the dtype's maximum, values int8..uint16/float32/float16 at the dtype's limits - so "
-        "that the input is exactly representable but its r-fold extension is not) "
+        "that the input is exactly representable but its r-fold extension is not; a sixth on special grids - nearly "
+        "uniform (step h, interior points jittered by 1e-7..5e-6 h, first step == last step), nanosecond lattices "
+        "(1e-9 / 1e-10 x integers with gaps 1..7), epoch time stamps (1.7e9 + seconds, plain and nearly uniform)) "
         "and r in 1..12 (structure, weaver), r = 1 (identity) or a factor pair (a, b) with a*b <= 24 (composition); "
-        "the Weaver is used fresh and with a working series different from the reference. Non-trivial = "
+        "the Weaver is used fresh and with a working series different from the reference; recall: five calls in a "
+        "row on the same x (identical input after the caller overwrote the previous result in place, other y, other "
+        "r), direct and through fresh Weavers; history: one Weaver, 1..3 repeats (r in 1..5) interleaved with 0..3 "
+        "of trend / noise / smooth / scale_y / shift_y / shift_x / truncate_by_index / truncate_by_value / "
+        "append_one_sample / restore_original / interpolate(n), every repeat judged against the closed form of "
+        "copies of get() and get_reference() taken just before it. Non-trivial = "
         "non-uniform spacing and r >= 2 (composition: a >= 2 and b >= 2; identity: non-uniform spacing or integer / "
         "narrow-dtype input, where the float conversion matters), or a narrow-dtype series whose extension leaves "
-        "the range or precision of its dtype; distinct = distinct full input.")
+        "the range or precision of its dtype (recall: r >= 2 and the other y differs; history: a "
+        "repeat issued after an earlier repeat and at least one other step); distinct = distinct full input.")
 ASSUMPTIONS = [
-    "x strictly increasing with >= 2 samples, gaps >= 1e-3 and |x| <= 1.1e6 (twv.gens), narrow-dtype series: gaps >= "
-    "2**-24 * max|x| and |x| < 2**32, so one float64 ulp of the largest repeated abscissa is far below the smallest "
-    "gap; narrow-dtype inputs hold exactly the generated values (checked before the call); the oracle is the closed "
+    "x strictly increasing with >= 2 samples; gaps >= 1e-3 with |x| <= 1.1e6 (twv.gens), narrow-dtype series: gaps >= "
+    "2**-24 * max|x| and |x| < 2**32, special grids: gaps >= 1e-10 with |x| < 1e-5, or >= 0.5 with |x| < 1.8e9, "
+    "so 256 float64 ulp of the largest repeated abscissa stay far below the smallest gap and below the smallest "
+    "generated gap variation; narrow-dtype inputs hold exactly the generated values (checked before the call); the oracle is the closed "
     "form in float64 of those exact values, whatever the input dtype",
     "values and the first copy are compared bit for bit as float64 ('equals the input' as values: an integer result for integer "
-    "input would be accepted); gaps inside copies and across junctions and the composition's abscissae are compared with "
-    "tolerance 1e-12 * max|x_out| (worst deviations measured on the pinned tree over 4 000 generated cases: gaps "
-    "2.2e-16, composition 4.5e-15 of that scale)",
+    "input would be accepted); gaps inside copies and across junctions are compared with tolerance 256 ulp of "
+    "max|x_out| (~5.7e-14 relative; tighter than DESIGN's 1e-12 so that a lost 1e-7 spacing pattern or a lost "
+    "sub-millisecond jitter on epoch stamps is visible; worst deviation measured on the pinned tree over 6 000 "
+    "generated cases of all grid kinds: 1.75 ulp, also for composed repeats), the composition's abscissae with "
+    "1e-12 * max|x_out| (worst measured 4.5e-15)",
+    "history: a step other than repeat that raises, or leaves a state that is not a finite strictly increasing "
+    "series of >= 2 samples, ends the history silently (counted; other properties own those steps); "
+    "integral_match and recreate_from_average are not used as intermediate steps; noise seeds NumPy's global RNG "
+    "from a drawn integer",
     "a Weaver whose reference differs from the working series is set up by assigning the public attributes x, y",
 ]
 TECHNIQUE = ("Hypothesis-generated series, repeat counts and factor pairs checked against the closed form of the "
-             "periodic extension (tiled values bit for bit, original gap pattern plus last step at every junction)")
+             "periodic extension (tiled values bit for bit, original gap pattern plus last step at every junction); "
+             "call sequences and Weaver histories judged step by step against the current state")
 LEVEL_TEXT = ("Randomized exploration against a closed-form oracle written from the statement: values and first copy "
               "bit for bit, every gap of every copy and every junction gap within 1e-12 of the scale, strict "
               "monotonicity, identity for r = 1 and composition both code-vs-code and against the closed form for "
               "a*b. Sampling only; lengths <= 60 and r <= 12 (composition a*b <= 24).")
 LEVEL_NOTE = "trusts the ~30-line closed form in this module (NumPy diff / concatenate only) and the stated tolerance"
 
-RTOL = 1e-12
+RTOL = 1e-12          # composition: abscissae of repeat(repeat(a), b) against repeat(a*b), relative to max|x_out|
+GAP_ULPS = 256        # gaps inside copies / across junctions: multiples of one float64 ulp of max|x_out| (derived below)
 # spacing kinds of twv.gens, the non-uniform ones weighted up (the non-trivial rule asks for non-uniform spacing)
 XKINDS = ["unit", "unit", "fstep", "hours", "dyadic", "dyadic", "loguni", "loguni", "loguni", "motif", "motif"]
 REPEATS = st.one_of(st.integers(2, 12), st.integers(2, 12), st.integers(1, 12))
@@ -105,15 +124,20 @@ def check_extension(name, x, y, r, res):
     period = (xf[-1] - xf[0]) + gaps[-1]
     want_d = np.concatenate([gaps, gaps[-1:]] * r)[:-1]
     scale = max(abs(xf[0]), abs(xf[-1]), abs(xf[0] + (r - 1) * period), abs(xf[-1] + (r - 1) * period))
+    # every abscissa of a later copy is one float sum x_i + shift_k, the shift itself a few float operations on
+    # earlier abscissae: a gap is off by a few ulp of the largest abscissa at most (measured: <= 2 ulp), whatever
+    # the gap's own size.  GAP_ULPS ulp keeps >= 2 decades of head-room and still resolves a spacing pattern whose
+    # relative variation is 1e-7 on a grid of 60 x 12 steps, or seconds-jitter of 1e-3 on epoch time stamps.
+    tol = GAP_ULPS * math.ulp(scale)
     dev = np.abs(d - want_d)
-    if np.any(dev > RTOL * scale):
+    if np.any(dev > tol):
         k = int(np.argmax(dev))
         if (k + 1) % n == 0:
             what = f"junction before copy {(k + 1) // n}: step {d[k]!r}, the series' last step is {want_d[k]!r}"
         else:
             what = f"copy {(k + 1) // n}, gap {k % n}: {d[k]!r}, original gap {want_d[k]!r}"
-        raise Violation(f"{name}: spacing not reproduced ({what}; tolerance {RTOL * scale:.3g})")
-    return float(np.max(dev) / scale) if len(dev) else 0.0
+        raise Violation(f"{name}: spacing not reproduced ({what}; tolerance {tol:.3g})")
+    return float(np.max(dev) / math.ulp(scale)) if len(dev) else 0.0
 
 
 def check_same(name, x, y, res):
@@ -197,9 +221,46 @@ def narrow_series(draw):
 
 
 @st.composite
+def special_series(draw, ctx):
+    """Grids on which 'is it evenly spaced?' shortcuts go wrong: nearly uniform, nanosecond scale, epoch offsets."""
+    kind = draw(st.sampled_from(["near-uniform", "near-uniform", "tiny", "tiny", "epoch", "epoch-near-uniform"]))
+    n = draw(st.integers(5 if "uniform" in kind else 3, ctx.pick(40, 60)))
+    if kind in ("near-uniform", "epoch-near-uniform"):
+        if kind == "near-uniform":
+            h = draw(st.one_of(st.sampled_from([1.0, 60.0, 0.25, 300.0, 3600.0, 5.0]), fl(1e-3, 1e3)))
+            x = [(draw(st.integers(-100, 100)) + 0) * h]
+            lo, hi = -7.0, -5.3
+        else:
+            h = draw(st.sampled_from([300.0, 3600.0, 86400.0]))
+            x = [1.7e9 + draw(st.integers(0, 10 ** 7))]
+            lo, hi = -6.0, -5.3
+        x = [x[0] + i * h for i in range(n)]
+        # relative jitter on interior points only: the first and the last step stay equal to h
+        idx = draw(st.lists(st.integers(2, n - 3), min_size=1, max_size=max(1, n // 3), unique=True))
+        for i in idx:
+            x[i] += draw(st.sampled_from([-1.0, 1.0])) * 10.0 ** draw(fl(lo, hi)) * h
+    elif kind == "tiny":
+        u = draw(st.sampled_from([1e-9, 1e-10]))
+        k = [draw(st.integers(0, 50))]
+        for g in draw(st.lists(st.integers(1, 7), min_size=n - 1, max_size=n - 1)):
+            k.append(k[-1] + g)
+        x = [u * v for v in k]
+    else:
+        x = [1.7e9 + draw(st.integers(0, 10 ** 7)) + draw(st.sampled_from([0.0, 0.5, 0.25]))]
+        for g in draw(st.lists(st.sampled_from([1.0, 60.0, 300.0, 3600.0, 0.5, 15.0]), min_size=n - 1, max_size=n - 1)):
+            x.append(x[-1] + g)
+    if not all(b > a for a, b in zip(x[:-1], x[1:])):
+        raise RuntimeError(f"special grid not strictly increasing: {x}")
+    return dict(x=x, y=draw(ys(n))["y"], xkind=kind, ykind="float64", xint=False, as_list=draw(st.integers(0, 4)) == 0)
+
+
+@st.composite
 def base_series(draw, ctx):
-    if draw(st.integers(0, 2)) == 0:
+    which = draw(st.integers(0, 5))
+    if which <= 1:
         return draw(narrow_series())
+    if which == 2:
+        return draw(special_series(ctx))
     s = draw(series(2, ctx.pick(40, 60), xkinds=XKINDS))
     if s["ykind"] in ("int", "ties") and all(float(v).is_integer() for v in s["y"]) and draw(st.booleans()):
         s = dict(s, y=[int(v) for v in s["y"]], yint=True)
@@ -390,6 +451,194 @@ def weaver_body(ctx, case):
                or "extension-leaves-dtype" in cls or "working-extension-leaves-dtype" in cls)
 
 
+# ---- repeated calls in one process: results are fresh arrays, nothing is remembered between calls -------------------------
+
+@st.composite
+def recall_case(draw, ctx):
+    s = draw(base_series(ctx))
+    n = len(s["x"])
+    r = draw(REPEATS)
+    other = draw(narrow_y(s["ydtype"], n)) if s.get("ydtype") else draw(ys(n))["y"]
+    return dict(s, r=r, r2=draw(st.integers(1, 12)), y2=other, facade=draw(st.booleans()),
+                scribble=draw(st.sampled_from(["shift-to-zero", "negate", "zero-fill"])))
+
+
+def _scribble(res, how):
+    """what a caller may do with arrays it was handed"""
+    for a in res:
+        if not isinstance(a, np.ndarray) or not a.flags.writeable:
+            continue
+        if how == "shift-to-zero":
+            a -= a[0]
+        elif how == "negate":
+            np.negative(a, out=a)
+        else:
+            a[...] = 0
+
+
+def recall_body(ctx, case):
+    x, y, r, r2, y2 = case["x"], case["y"], case["r"], case["r2"], case["y2"]
+    cls = series_classes(case, x, r) | {r_class(r), "scribble:" + case["scribble"]}
+
+    def call(yy, rr, tag):
+        xa, ya = inputs(dict(case, y=yy))
+        if case["facade"]:
+            w = Weaver(xa, ya)
+            w.repeat(rr)
+            res, ref = w.get(), w.get_reference()
+            check_extension(f"{tag}: Weaver.repeat({rr}).get()", x, yy, rr, res)
+            check_extension(f"{tag}: Weaver.repeat({rr}).get_reference()", x, yy, rr, ref)
+            _scribble(pair(tag, res), case["scribble"])
+            _scribble(pair(tag, ref), case["scribble"])
+        else:
+            res = process.repeat(xa, ya, rr)
+            check_extension(f"{tag}: repeat(x, y, {rr})", x, yy, rr, res)
+            _scribble(pair(tag, res), case["scribble"])
+
+    call(y, r, "first call")
+    call(y, r, "second call with bit-identical input, after the caller modified the first result in place")
+    call(y2, r, "third call, same x and other y")
+    call(y, r2, f"fourth call, same x and y, r={r2} instead of {r}")
+    call(y, r, "fifth call, first input again")
+    cls.add("via-Weaver" if case["facade"] else "direct")
+    cls.add("other-y-equal" if y2 == y else "other-y-differs")
+    cls.add("r2==r" if r2 == r else "r2!=r")
+    ctx.record(case, cls, r >= 2 and y2 != y)
+
+
+# ---- Weaver history: every repeat extends the series as it is NOW -----------------------------------------------------------
+
+HIST_OPS = ["trend", "trend", "noise", "smooth", "scale_y", "shift_y", "truncate_index", "truncate_index",
+            "truncate_value", "append", "append", "restore", "interpolate", "shift_x"]
+
+
+@st.composite
+def hist_op(draw):
+    op = draw(st.sampled_from(HIST_OPS))
+    d = dict(op=op)
+    if op == "trend":
+        d.update(a=draw(st.one_of(st.sampled_from([1.0, -0.5, 0.125]), fl(-3.0, 3.0))), normalized=draw(st.booleans()))
+    elif op == "noise":
+        d.update(snr=draw(st.sampled_from([10.0, 20.0, 3.0])), seed=draw(st.integers(0, 2 ** 31 - 1)))
+    elif op == "smooth":
+        d.update(frac=draw(st.sampled_from([0.0, 0.1, 0.5, 1.0])))
+    elif op in ("scale_y", "shift_y", "shift_x"):
+        d.update(v=draw(st.one_of(st.sampled_from([2.0, 0.5, -1.0, 10.0]), fl(0.1, 10.0))))
+    elif op in ("truncate_index", "truncate_value"):
+        d.update(i=draw(st.integers(0, 10 ** 4)), j=draw(st.integers(0, 10 ** 4)))
+    elif op == "append":
+        d.update(periodic=draw(st.booleans()))
+    elif op == "interpolate":
+        d.update(n=draw(st.integers(2, 40)), method=draw(st.sampled_from(["linear", "constant"])))
+    return d
+
+
+@st.composite
+def history_case(draw, ctx):
+    s = draw(base_series(ctx))
+    if len(s["x"]) > 30:
+        s = dict(s, x=s["x"][:30], y=s["y"][:30])
+    prog = []
+    for k in range(draw(st.integers(1, 3))):
+        prog += draw(st.lists(hist_op(), min_size=0 if k == 0 else 1, max_size=ctx.pick(2, 3)))
+        prog.append(dict(op="repeat", r=draw(st.sampled_from([1, 2, 2, 3, 3, 4, 5]))))
+    return dict(s, prog=prog)
+
+
+def _snapshot(name, res):
+    """(x list, y list) of a Weaver series if it is a series the statement speaks about, else None"""
+    if not (isinstance(res, tuple) and len(res) == 2):
+        return None
+    out = []
+    for a in res:
+        if not isinstance(a, np.ndarray) or a.ndim != 1 or a.dtype.kind not in "iuf":
+            return None
+        out.append(a.tolist())
+    x, y = out
+    if len(x) < 2 or len(x) != len(y) or not all(math.isfinite(v) for v in x + y):
+        return None
+    if not all(b > a for a, b in zip(x[:-1], x[1:])):
+        return None
+    return x, y
+
+
+def _apply(w, op, ctx):
+    """one non-repeat step of a history; False if it does not apply to the current state"""
+    name, n = op["op"], len(w.x)
+    m = min(n, len(w.reference_x))
+    if name == "trend":
+        a = op["a"]
+        w.trend(lambda t: a * t, normalized=op["normalized"])
+    elif name == "noise":
+        np.random.seed(op["seed"])
+        w.noise(op["snr"])
+    elif name == "smooth":
+        if n < 5:
+            return False
+        w.smooth(op["frac"] * n * float(np.std(w.y)) ** 2)
+    elif name == "scale_y":
+        w.scale_y(op["v"])
+    elif name == "shift_y":
+        w.shift_y(op["v"])
+    elif name == "shift_x":
+        w.shift_x(op["v"])
+    elif name == "truncate_index":
+        if m < 3:
+            return False
+        i = op["i"] % (m - 1)
+        j = i + 2 + op["j"] % (m - i - 1)
+        w.truncate_by_index(i, j)
+    elif name == "truncate_value":
+        if n < 3:
+            return False
+        i = op["i"] % (n - 1)
+        j = i + 1 + op["j"] % (n - i - 1)
+        w.truncate_by_value(w.x[i].item(), w.x[j].item())
+    elif name == "append":
+        w.append_one_sample(make_periodic=op["periodic"])
+    elif name == "restore":
+        w.restore_original()
+    elif name == "interpolate":
+        w.interpolate(n=op["n"], method=op["method"])
+    return True
+
+
+def history_body(ctx, case):
+    w = Weaver(*inputs(case))
+    cls = series_classes(case, case["x"])
+    judged, since_repeat, total = 0, [], 1
+    for op in case["prog"]:
+        if op["op"] != "repeat":
+            try:
+                with np.errstate(all="ignore"):
+                    applied = _apply(w, op, ctx)
+            except Exception as e:       # not this property's business: the history ends here
+                ctx.count(f"setup-step-failed:{op['op']}:{type(e).__name__}")
+                break
+            if applied:
+                since_repeat.append(op["op"])
+            continue
+        r = op["r"]
+        cur, ref = _snapshot("get()", w.get()), _snapshot("get_reference()", w.get_reference())
+        if cur is None or ref is None or max(len(cur[0]), len(ref[0])) * r > 3000:
+            ctx.count("history-ended:state-not-a-valid-series" if cur is None or ref is None else "history-ended:too-long")
+            break
+        where = f"history step repeat({r}) after {since_repeat if judged else 'construction + ' + str(since_repeat)}"
+        w.repeat(r)
+        check_extension(f"{where}: get()", cur[0], cur[1], r, w.get())
+        check_extension(f"{where}: get_reference()", ref[0], ref[1], r, w.get_reference())
+        if judged:
+            cls.add("repeat-after-repeat" if not since_repeat else "repeat-after-repeat-and-other-steps")
+            cls |= {"between:" + o for o in since_repeat}
+            if len(cur[0]) != len(ref[0]):
+                cls.add("lengths-differ")
+        judged += 1
+        total *= r
+        since_repeat = []
+    cls.add(f"repeats-judged:{judged}")
+    ctx.record(case, cls, "repeat-after-repeat-and-other-steps" in cls and total >= 2)
+
+
 SUBCHECKS = [
     Sub("structure", "hyp", structure_body, strategy=structure_case, quick=500, thorough=10000,
         clause="r*len samples, values tiled, first copy = input, strictly increasing, original gaps in every copy, "
@@ -400,4 +649,10 @@ SUBCHECKS = [
         clause="repeat a times then b times equals repeat a*b times"),
     Sub("weaver", "hyp", weaver_body, strategy=weaver_case, quick=500, thorough=10000,
         clause="Weaver.repeat extends the working series and the reference alike"),
+    Sub("recall", "hyp", recall_body, strategy=recall_case, quick=150, thorough=3000,
+        clause="same statement for every call of a sequence in one process (same x again after the caller modified "
+               "the returned arrays, same x with other y, same x with other r): nothing is remembered or shared"),
+    Sub("history", "hyp", history_body, strategy=history_case, quick=200, thorough=4000,
+        clause="each of 1..3 Weaver.repeat calls, interleaved with other operations, extends the series as it is at "
+               "that moment (working series and reference)"),
 ]
